@@ -39,3 +39,9 @@ chk("C13", "other",
     "Sequential consistency (a flush is a no-op in the model); 2 threads; <=3 context switches; small images; 'no equal-valued neighbours' read as distinct pixels within every 3x3 window; real-build confirmation of a model race is a stress run (not a forced schedule).",
     "symbolic execution of LLVM IR (llsym) + greenlet-based bounded schedule exploration of the OpenMP outlined region + z3; confirmation on the rebuilt OpenMP kernel", "DESIGN.md 3/C13, 2.9", "llsym")
 del NA["C13"]
+
+chk("C14", "other",
+    "Bounded symbolic execution of the real sparse-image kernels (clang IR): mask_to_coo on every int8 mask content of 2x2/2x3 (3x3 thorough) images, tosparse_u16/u32/f32 with symbolic pixels over the full machine range, symbolic mask and cut, sparse_is_sorted / sparse_overlaps / coverlaps with symbolic sorted coordinates over the full uint16 range (modular arithmetic modelled), compress_duplicates with symbolic labels: per path the outputs are compared with the definition by z3 (selected pixels in strict row-major order, exact pair counts for the linear and for the matrix algorithm against one specification). sparse_frame.sort/mask executed on frames with symbolic pixel values.",
+    "Images <= 3x3, frames <= 4 pixels, labels 1..2; documented preconditions (sorted duplicate-free coordinates, no label 0 in coverlaps, 0 <= cut <= type max); to_dense (scipy.sparse) and the HDF5 round trip not covered; overlaps_linear/overlaps_matrix Python plumbing not executed (their kernels are).",
+    "symbolic execution of LLVM IR (llsym) + z3 per-path validity queries; counterexample models replayed on the rebuilt kernels through ctypes", "DESIGN.md 3/C14", "llsym+pysym")
+del NA["C14"]
